@@ -1141,6 +1141,12 @@ caption_command(vbi_decoder *vbi, struct caption *cc,
 		case 1:		/* Backspace			001 c10f  010 0001 */
 // not verified
 			if (ch->mode && ch->col > 1) {
+				/* After a character was stored in the last
+				   column the cursor is still in that column,
+				   47 CFR 15.119 (f)(1)(v). */
+				if (ch->col > COLUMNS - 2)
+					ch->col = COLUMNS - 2;
+
 				ch->line[--ch->col] = cc->transp_space[chan >> 2];
 
 				if (ch->col < ch->col1)
@@ -1188,6 +1194,12 @@ caption_command(vbi_decoder *vbi, struct caption *cc,
 
 		case 4:		/* Delete To End Of Row		001 c10f  010 0100 */
 // not verified
+			/* After a character was stored in the last column
+			   the cursor is still in that column, 47 CFR 15.119
+			   (f)(1)(v). */
+			if (ch->col > COLUMNS - 2)
+				ch->col = COLUMNS - 2;
+
 			if (!ch->mode)
 				return;
 
